@@ -412,10 +412,38 @@ def dtype_and_shape_history_probe(ctx, xt):
                  "the current shape is the one that counts")
 
 
+def tensor_subclass_probe(ctx, xt):
+    """instances of torch.Tensor SUBCLASSES (torch.nn.Parameter) are tensors for listing AND for refilling, in every container
+    kind and next to plain tensors (round-5 seed C20/13: _put_tensors tested `type(b) is torch.Tensor` while _extract_tensors
+    kept isinstance - the Parameter slot was listed but never refilled and the later slots received its tensor)"""
+    rng = ctx.rng
+    for rep in range(ctx.n(12, 60)):
+        pool_n = rng.randrange(2, 5)
+        pool = []
+        for i in range(pool_n):
+            t = make_tensor(rng, rng.choice(SHAPES))
+            pool.append(torch.nn.Parameter(t, requires_grad=rng.random() < 0.7) if (i == 0 or rng.random() < 0.5) else t)
+        while True:
+            spec = gen_struct(rng, pool_n, [rng.randrange(3, 12)], top=True)
+            if len(slots(spec)) >= 2 and 0 in slots(spec):
+                break
+        info = {"structure": skeleton(spec), "slots": slots(spec), "parameter_slots": [i for i in range(pool_n)
+                                                                                       if isinstance(pool[i], torch.nn.Parameter)]}
+        ctx.count(("tensor-subclass", skeleton(spec), tuple(slots(spec)), tuple(info["parameter_slots"])), nontrivial=True)
+
+        def of(key, msg, info=info):
+            ctx.fail("oracle", "packer:tensor-subclass:" + key, info, msg, "property clause holds")
+        try:
+            oracle_case(xt, spec, pool, of)
+        except Exception as e:
+            ctx.fail("oracle", "packer:tensor-subclass:exception", info, repr(e), "no exception on valid use")
+
+
 def check(ctx):
     import xitorch as xt
     tuple_opacity_probe(ctx, xt)
     dtype_and_shape_history_probe(ctx, xt)
+    tensor_subclass_probe(ctx, xt)
     rng = ctx.rng
     ncases = ctx.n(400, 3000)
     cases, meta = [], []
